@@ -53,7 +53,11 @@ func (c *recordingClient) Execute(ctx context.Context, req *federation.QueryRequ
 		}
 	}
 	if req.Query != nil && req.Query.SelectionSet != nil {
-		if why := validateAgainst(c.schema.Query, req.Query.SelectionSet); why != "" {
+		root := c.schema.Query
+		if req.Query.Kind == "mutation" && c.schema.Mutation != nil {
+			root = c.schema.Mutation
+		}
+		if why := validateAgainst(root, req.Query.SelectionSet); why != "" {
 			c.mu.Lock()
 			if len(c.bad) < 5 {
 				c.bad = append(c.bad, why)
@@ -172,6 +176,10 @@ func buildPartition(run *vlib.Run, sd *gen.SchemaDesc, idx int, refresh time.Dur
 			p.multi++
 		}
 	}
+	for _, key := range sd.MutationFields() {
+		// a mutation field lives on exactly one service
+		p.owners[key] = []string{p.services[r.Intn(ns)]}
+	}
 	execs := map[string]federation.ExecutorClient{}
 	for _, name := range p.services {
 		name := name
@@ -179,7 +187,7 @@ func buildPartition(run *vlib.Run, sd *gen.SchemaDesc, idx int, refresh time.Dur
 		if r.Intn(2) == 0 {
 			nodeKeys = "id"
 		}
-		cfg := gen.Config{Service: name, NodeKeys: nodeKeys, Modes: map[string]gen.Mode{}, Include: func(typ, field string) bool {
+		cfg := gen.Config{Service: name, NodeKeys: nodeKeys, Mutations: true, Modes: map[string]gen.Mode{}, Include: func(typ, field string) bool {
 			for _, o := range p.owners[typ+"."+field] {
 				if o == name {
 					return true
@@ -244,10 +252,10 @@ func TestCheck(t *testing.T) {
 	defer run.Finish()
 	sd := gen.Zoo()
 	run.Rule("seeded partitions assign every zoo field (root fields and Node/Leaf/Item field funcs, values pure functions of object id) to 1-3 of 2-4 services, all objects federated with FetchObjectFromKeys; " +
-		"generated queries (duplicate aliases with different sub-selections, nested/named fragments, unions, args/variables, nulls, empty lists, multi-hop plans) run through federation.Executor (5 repetitions to vary the arbitrary service pick) while the gateway refreshes its schema every 2-5 ms and 8 goroutines query; " +
+		"generated queries (duplicate aliases with different sub-selections, nested/named fragments, unions, args/variables, nulls, empty lists, multi-hop plans; every 7th operation is a mutation on a Mutation root whose fields live on one service each; one query in 50 runs over a world of 1200-2700 nodes so that single hops carry thousands of objects) run through federation.Executor (5 repetitions to vary the arbitrary service pick) while the gateway refreshes its schema every 2-5 ms and 8 goroutines query; " +
 		"oracle: StripKey(gateway result) == StripKey(monolith result); every sub-query received by a service names only fields/args in that service's own schema; race detector. Non-trivial = plan needs >= 2 services; distinct by (partition, query shape).")
 	run.Assume("DirectExecutorClient (in-process protobuf round trip) stands for the gRPC transport")
-	mono, err := gen.Build(sd, gen.Config{}, &gen.Env{}).Build()
+	mono, err := gen.Build(sd, gen.Config{Mutations: true}, &gen.Env{}).Build()
 	if err != nil {
 		run.Broken("monolith build: " + err.Error())
 		return
@@ -302,6 +310,19 @@ func oneQuery(run *vlib.Run, sd *gen.SchemaDesc, mono *graphql.Schema, p *partit
 	if r.Intn(3) == 0 {
 		o = gen.MergeHeavy(o)
 	}
+	switch {
+	case qi%7 == 3:
+		// a mutation whose result needs fields of other services
+		o.Mutation = true
+		run.Count("mutation_operations", 1)
+	case qi%50 == 11:
+		// one hop carrying thousands of objects (small query, large lists)
+		w = gen.NewWorld(uint64(r.Int63()), 1200+r.Intn(1500), 3+r.Intn(4))
+		o.MaxDepth, o.MaxWidth = 2, 3
+		o.RootFields = []string{"all"}
+		o.PDupAlias, o.PNamed, o.PInline = 0.05, 0.05, 0.05
+		run.Count("large_world_queries", 1)
+	}
 	o.UnionSecondFragment = os.Getenv("C06_NO_UNION2") == ""
 	o.UnionSelfFragment = true
 	o.AvoidTypes = map[string]bool{"Bag": true} // Bag is not federated
@@ -320,11 +341,15 @@ func oneQuery(run *vlib.Run, sd *gen.SchemaDesc, mono *graphql.Schema, p *partit
 		run.Broken(fmt.Sprintf("case %d: generated query rejected by Parse: %v\n%s", caseIdx, err, text))
 		return
 	}
-	if err := graphql.PrepareQuery(ctx, mono.Query, q.SelectionSet); err != nil {
+	monoRoot := mono.Query
+	if q.Kind == "mutation" {
+		monoRoot = mono.Mutation
+	}
+	if err := graphql.PrepareQuery(ctx, monoRoot, q.SelectionSet); err != nil {
 		run.Broken(fmt.Sprintf("case %d: generated query rejected by the monolith: %v\n%s", caseIdx, err, text))
 		return
 	}
-	want, err := graphql.NewExecutor(graphql.NewImmediateGoroutineScheduler()).Execute(ctx, mono.Query, nil, q)
+	want, err := graphql.NewExecutor(graphql.NewImmediateGoroutineScheduler()).Execute(ctx, monoRoot, nil, q)
 	if err != nil {
 		run.Broken(fmt.Sprintf("case %d: monolith failed: %v\n%s", caseIdx, err, text))
 		return
